@@ -22,7 +22,7 @@ type CombCase struct {
 	Pts     []FP   `json:"pts"`
 }
 
-const ruleComb = "rapid: combine() with 2-3 lambdas (selective and TRUE), as(), delimiter, tolerance over 1-2 groups and runs of 1-5 points with equal (rounded) timestamps, stream and batch input; " +
+const ruleComb = "rapid: combine() with 2-3 lambdas (selective and TRUE), as(), delimiter, tolerance over 1-3 groups (one of them the points that lack the group-by tag) and runs of 1-5 points with equal (rounded) timestamps, stream and batch input; " +
 	"oracle: reference from pipeline/combine.go's doc comment (all combinations of distinct points of one time, each expression matched to a distinct point, fields and non-group tags prefixed); outputs of a run compared as multisets; non-trivial = a run of >=3 points produced >=2 combinations; distinct by case hash"
 
 var combExprs = [][]string{{`"s" == 'p'`, `TRUE`}, {`TRUE`, `TRUE`}, {`TRUE`, `TRUE`, `TRUE`}, {`"s" == 'p'`, `"s" == 'q'`}}
@@ -39,10 +39,15 @@ func genComb(t *rapid.T) CombCase {
 	if c.GroupBy {
 		groups = rapid.IntRange(1, 2).Draw(t, "groups")
 	}
+	// every third grouped case: some points lack the host tag the data is grouped by
+	sparse := c.GroupBy && rapid.IntRange(0, 2).Draw(t, "sparse") == 0
 	n := rapid.IntRange(0, 16).Draw(t, "n")
 	for i := 0; i < n; i++ {
 		p := FP{G: rapid.IntRange(0, groups-1).Draw(t, "g"), DC: rapid.SampledFrom([]string{"d0", "d1"}).Draw(t, "dc"), X: "a",
 			Gap: rapid.SampledFrom([]int64{0, 0, 0, 0, 4e8, 1e9, 3e9}).Draw(t, "gap"), I: int64(rapid.IntRange(0, 9).Draw(t, "i")), S: rapid.SampledFrom([]string{"p", "q", "q"}).Draw(t, "s")}
+		if sparse {
+			p.NoHost = rapid.IntRange(0, 2).Draw(t, "nohost") == 0
+		}
 		if c.Batch {
 			p.Cut = i == 0 || rapid.IntRange(0, 5).Draw(t, "cut") == 0
 		}
@@ -238,6 +243,13 @@ func runComb(c CombCase, cc *kit.Case) {
 		p := *o.P
 		k := runKey{gOf(p.Tags), p.Time}
 		p.DB, p.RP, p.Group, p.Dims, p.ByName = "", "", "", nil, false
+		if v, ok := p.Tags["host"]; ok && v == "" && c.GroupBy {
+			// the group whose points lack the host tag: the tag may be carried with the empty value or left out
+			delete(p.Tags, "host")
+			if len(p.Tags) == 0 {
+				p.Tags = nil
+			}
+		}
 		b, _ := json.Marshal(p)
 		got[k] = append(got[k], string(b))
 	}
@@ -263,11 +275,18 @@ func runComb(c CombCase, cc *kit.Case) {
 		cc.NonTrivial()
 	}
 	cc.Label(fmt.Sprintf("kind:%d", c.Kind))
+	for _, p := range c.Pts {
+		if p.NoHost && c.GroupBy {
+			cc.Label("point-lacks-group-by-tag")
+			break
+		}
+	}
 }
 
 var assumptionsComb = []string{
 	"points of one group with the same tolerance-rounded timestamp are combined: every combination of k distinct points for which each of the k expressions, in order, finds a not yet used matching point (first match in arrival order) yields one point whose fields and non-group tags are prefixed with the as() names; the outputs of one timestamp are compared as a multiset",
 	"stream input: the combinations of the last timestamp of a group may be absent (nothing marks its end)",
+	"points that lack the group-by tag form the group in which that tag has the empty value (models.ToGroupID); a combination of such points may carry the tag with the empty value or not at all",
 }
 
 func TestCombine(t *testing.T) {
